@@ -434,13 +434,56 @@ func ruleDetectAllPages(c *eng.Ctx) {
 								return
 							}
 							nSt++
-							from := false
-							for w := range eng.Slice(s2.Val, nil) {
-								if call, ok := w.(*ssa.Call); ok && eng.StaticCallee(call) == detect {
-									from = true
+							// the stored value is the detection result, possibly handed to a constructor of the job
+							// struct as a parameter (every call site then passes the detection result or nil)
+							var fromD func(v ssa.Value, depth int) bool
+							fromD = func(v ssa.Value, depth int) bool {
+								if eng.IsNilConst(v) {
+									return true
 								}
+								for w := range eng.Slice(v, nil) {
+									if call, ok := w.(*ssa.Call); ok && eng.StaticCallee(call) == detect {
+										return true
+									}
+								}
+								if depth > 2 {
+									return false
+								}
+								if ph, ok := v.(*ssa.Phi); ok {
+									for _, e := range ph.Edges {
+										if !fromD(e, depth+1) {
+											return false
+										}
+									}
+									return true
+								}
+								par, ok := v.(*ssa.Parameter)
+								if !ok {
+									return false
+								}
+								h := par.Parent()
+								pi := -1
+								for i, q := range h.Params {
+									if q == par {
+										pi = i
+									}
+								}
+								sites, okAll := 0, true
+								for _, g2 := range c.P.ModuleFuncs() {
+									if g2.Pkg != h.Pkg {
+										continue
+									}
+									for _, site := range eng.Calls(g2, true, func(_ string, ci ssa.CallInstruction) bool { return eng.StaticCallee(ci) == h }) {
+										sites++
+										args := eng.ArgsWithRecv(site)
+										if pi < 0 || pi >= len(args) || !fromD(args[pi], depth+1) {
+											okAll = false
+										}
+									}
+								}
+								return sites > 0 && okAll
 							}
-							if !from && !eng.IsNilConst(s2.Val) {
+							if !fromD(s2.Val, 0) {
 								all = false
 							}
 						})
@@ -620,20 +663,56 @@ func ruleTextsMatch(c *eng.Ctx) {
 		c.Undec(R, "layout.textsMatch", token.NoPos, "anchor not found")
 		return
 	}
-	for i := 0; i < 2 && i < len(fn.Params); i++ {
-		p := fn.Params[i]
-		okT := true
-		n := 0
-		for _, r := range *p.Referrers() {
+	// onlyTrimmed: every use of the value is strings.TrimSpace, or hands it on (to a function of the module, or to a
+	// method of a small interface) to a parameter that is itself only used trimmed
+	var onlyTrimmed func(v ssa.Value, depth int) (bool, int)
+	onlyTrimmed = func(v ssa.Value, depth int) (bool, int) {
+		okT, n := true, 0
+		if depth > 3 || v.Referrers() == nil {
+			return false, 0
+		}
+		for _, r := range *v.Referrers() {
 			if _, isDbg := r.(*ssa.DebugRef); isDbg {
 				continue
 			}
-			n++
 			call, ok := r.(*ssa.Call)
-			if !ok || eng.CalleeName(call) != "strings.TrimSpace" {
+			if !ok {
+				n++
+				okT = false
+				continue
+			}
+			if eng.CalleeName(call) == "strings.TrimSpace" {
+				n++
+				continue
+			}
+			handed := false
+			args := eng.ArgsWithRecv(call)
+			for _, g := range c.P.Callees(call) {
+				if g.Blocks == nil || !eng.InModule(g) {
+					continue
+				}
+				for ai, a := range args {
+					if a != v || ai >= len(g.Params) {
+						continue
+					}
+					handed = true
+					o2, n2 := onlyTrimmed(g.Params[ai], depth+1)
+					n += n2
+					if !o2 {
+						okT = false
+					}
+				}
+			}
+			if !handed {
+				n++
 				okT = false
 			}
 		}
+		return okT, n
+	}
+	for i := 0; i < 2 && i < len(fn.Params); i++ {
+		p := fn.Params[i]
+		okT, n := onlyTrimmed(p, 0)
 		c.Check(okT && n > 0, R, "layout.textsMatch#"+p.Name(), fn.Pos(), "only used trimmed", "argument "+p.Name()+" is compared without trimming: padded header text is detected but never removed")
 	}
 }
